@@ -264,6 +264,52 @@ class AddLayer(Command):
         self.viewer.remove_layer(self.layer)
 
 
+def _snapshot_subsets(cmd, session):
+    """
+    Record what a command that edits subsets needs in order to be undone: the
+    subset groups that exist, their subset states, the states of any subsets
+    that are not part of a group, and the subsets currently being edited.
+    """
+    cmd.old_groups = dict((group, group.subset_state)
+                          for group in cmd.data_collection.subset_groups)
+    cmd.old_states = {}
+    for data in cmd.data_collection:
+        for subset in data.subsets:
+            cmd.old_states[subset] = subset.subset_state
+    cmd.old_edit_subset = session.edit_subset_mode.edit_subset
+
+
+def _restore_subsets(cmd, session):
+    """
+    Undo a command that edits subsets, using the record made by
+    _snapshot_subsets.
+    """
+    # Remove the subset groups created by the command (which also removes
+    # their subsets from all datasets). Individual subsets that are not part
+    # of a group are simply deleted.
+    for group in cmd.data_collection.subset_groups:
+        if group not in cmd.old_groups:
+            cmd.data_collection.remove_subset_group(group)
+
+    for data in cmd.data_collection:
+        for subset in data.subsets:
+            if (subset not in cmd.old_states and
+                    getattr(subset, 'group', None) not in cmd.old_groups):
+                subset.delete()
+
+    # Restore subset states. This is done for each group rather than for each
+    # subset of a group, since a dataset that has been removed from and added
+    # back to the data collection in the meantime carries new subset objects.
+    for group, state in cmd.old_groups.items():
+        group.subset_state = state
+
+    for subset, state in cmd.old_states.items():
+        if getattr(subset, 'group', None) not in cmd.old_groups:
+            subset.subset_state = state
+
+    session.edit_subset_mode.edit_subset = cmd.old_edit_subset
+
+
 class ApplyROI(Command):
     """
     Apply an ROI to a data collection, updating subset states
@@ -281,21 +327,11 @@ class ApplyROI(Command):
     label = 'apply ROI'
 
     def do(self, session):
-        self.old_states = {}
-        for data in self.data_collection:
-            for subset in data.subsets:
-                self.old_states[subset] = subset.subset_state
-
+        _snapshot_subsets(self, session)
         self.apply_func(self.roi)
 
     def undo(self, session):
-        for data in self.data_collection:
-            for subset in data.subsets:
-                if subset not in self.old_states:
-                    subset.delete()
-
-        for k, v in self.old_states.items():
-            k.subset_state = v
+        _restore_subsets(self, session)
 
 
 class ApplySubsetState(Command):
@@ -316,10 +352,7 @@ class ApplySubsetState(Command):
 
     def do(self, session):
 
-        self.old_states = {}
-        for data in self.data_collection:
-            for subset in data.subsets:
-                self.old_states[subset] = subset.subset_state
+        _snapshot_subsets(self, session)
 
         mode = session.edit_subset_mode
         override_mode = self.extra.get('override_mode')
@@ -332,13 +365,7 @@ class ApplySubsetState(Command):
         mode.update(self.data_collection, self.subset_state, override_mode=override_mode)
 
     def undo(self, session):
-        for data in self.data_collection:
-            for subset in data.subsets:
-                if subset not in self.old_states:
-                    subset.delete()
-
-        for k, v in self.old_states.items():
-            k.subset_state = v
+        _restore_subsets(self, session)
 
 
 class LinkData(Command):
